@@ -1495,3 +1495,120 @@ def version_roundtrip(fns):
 
 
 import time
+
+
+# ---------------------------------------------------------------------------------------------
+# C01 / C04 O4.5: a flush adds its tables and removes exactly the flushed sealed memtables in ONE version step
+# ---------------------------------------------------------------------------------------------
+
+def register_tables_step(fns):
+    outer = mir.find(fns, r"src/tree/mod\.rs[^>]*>::register_tables\(")
+    up = [b for b in outer.blocks.values() if not b.cleanup and b.kind == "call" and re.search(r"SuperVersions::upgrade_version::<", b.callee)]
+    if len(up) != 1:
+        raise MirError("register_tables: expected exactly one upgrade_version call")
+    spans = re.findall(r"\{closure@([^}]+)\}", up[0].callee)
+    cf = [f for f in fns if f.closure_span() in spans]
+    if len(cf) != 1:
+        raise MirError("register_tables: closure not found")
+    cf = cf[0]
+    inner = [f for f in fns if f.closure_span() and "src/tree/mod.rs" in f.closure_span() and "register_tables" in f.name]
+    names = struct_fields("version/super_version.rs", "SuperVersion")
+    if names[:3] != ["active_memtable", "sealed_memtables", "version"]:
+        raise MirError("SuperVersion fields changed: %s" % names)
+
+    def un(v):
+        while isinstance(v, Ref) and not isinstance(v.target, tuple):
+            v = v.target
+        return v
+
+    def runner(timeout):
+        bad, paths, decls, queries = [], 0, {}, []
+        for nids in (0, 1, 2):
+            for frag in ("none", "empty", "nonempty"):
+                ex = symex.Executor([cf] + inner, [])
+                ids = [ex.sym("mt_id_%d" % i, 64) for i in range(nids)]
+                tables, blobs = Obj("TablesSlice"), Opt(B(True), Obj("BlobSlice"))
+                fm = Obj("FragMap")
+                fragopt = Opt(B(frag != "none"), fm)
+                old = Tup([Obj("OldActive"), Obj("OldSealed"), Obj("OldVersion"), ex.sym("old_seqno", 64)])
+                clo = Closure(cf.closure_span(), [Ref(tables), Ref(blobs), fragopt, Ref(Ref(Obj("Slice", items=ids)))])
+
+                def m_filter(ex2, env, b, a, p, d):
+                    o = a[0]
+                    if o.cond.const() is False:
+                        return _one(o)
+                    rs = ex2.call_closure(a[1], [Ref(o.val)], p, d)
+                    if len(rs) != 1 or rs[0][1] or rs[0][0].const() is None:
+                        raise MirError("Option::filter predicate is not concrete")
+                    return _one(o if rs[0][0].const() else Opt(B(False), None))
+                ex.models = [(re.compile(r), h) for r, h in [
+                    (r"^<SuperVersion as Clone>::clone$", lambda ex2, env, b, a, p, d: _one(Tup(list(old.items)))),
+                    (r"^Option::<FragmentationMap>::filter::<", m_filter),
+                    (r"^<FragmentationMap as Deref>::deref$", lambda ex2, env, b, a, p, d: _one(un(a[0]))),
+                    (r"^std::collections::HashMap::<u64, FragmentationEntry, [^>]*>::is_empty$", lambda ex2, env, b, a, p, d: _one(B(frag == "empty"))),
+                    (r"^Version::with_new_l0_run$", lambda ex2, env, b, a, p, d: _one(Obj("NewVersion", args=a))),
+                    (r"^<&\[u64\] as IntoIterator>::into_iter$", lambda ex2, env, b, a, p, d: _one(symex.SliceIt([Ref(x) for x in un(a[0]).items]))),
+                    (r"^<log::Level as PartialOrd<LevelFilter>>::le$", lambda ex2, env, b, a, p, d: _one(B(False))),
+                    (r"^<Arc<SealedMemtables> as Deref>::deref$", lambda ex2, env, b, a, p, d: _one(un(a[0]))),
+                    (r"^SealedMemtables::remove$", lambda ex2, env, b, a, p, d: _one(Obj("Removed", prev=un(a[0]), id=a[1]))),
+                    (r"^Arc::<SealedMemtables>::new$", lambda ex2, env, b, a, p, d: _one(a[0])),
+                ] + symex.ITER_MODELS]
+                res = []
+                ex.run(cf, [clo, Ref(old)], symex.Path(), lambda ret, env, path: res.append((ret, path)))
+                paths += len(res)
+                decls.update(ex.decls)
+                if len(res) != 1 or not (isinstance(res[0][0], Enum) and res[0][0].variant == "Ok"):
+                    bad.append("closure does not return Ok(super version) on one path (ids=%d, frag=%s)" % (nids, frag))
+                    continue
+                f = res[0][0].payload[0].items
+                if not same(f[0], Obj("OldActive")):
+                    bad.append("a flush replaces the active memtable")
+                nv = f[2]
+                if not (isinstance(nv, Obj) and nv.kind == "NewVersion"):
+                    bad.append("the flushed tables are not added to the version (no with_new_l0_run)")
+                    continue
+                a = nv.args
+                if not (same(un(a[0]), Obj("OldVersion")) and same(un(a[1]), tables)):
+                    bad.append("with_new_l0_run is not applied to the current version with the flushed tables")
+                bo = a[2]
+                if not (isinstance(bo, Opt) and bo.cond.const() is True and same(un(bo.val), Obj("BlobSlice"))):
+                    bad.append("the blob files written by the flush are not handed to with_new_l0_run")
+                fo = a[3]
+                want_frag = frag == "nonempty"
+                if not (isinstance(fo, Opt) and fo.cond.const() is want_frag and (not want_frag or same(fo.val, fm))):
+                    bad.append("the fragmentation diff handed to with_new_l0_run is not `frag_map.filter(non-empty)` (frag=%s)" % frag)
+                # sealed memtables: exactly the given ids removed, in order, from the old set
+                chain, cur = [], f[1]
+                while isinstance(cur, Obj) and cur.kind == "Removed":
+                    chain.append(cur.id)
+                    cur = cur.prev
+                chain.reverse()
+                if not same(cur, Obj("OldSealed")) or len(chain) != nids:
+                    bad.append("sealed memtables after a flush of %d memtables: %d removals from %s" % (nids, len(chain), getattr(cur, "kind", cur)))
+                    continue
+                if nids:
+                    queries.append(("ids:%d:%s" % (nids, frag), res[0][1].pc + ["(or %s)" % " ".join("(not (= %s mt_id_%d))" % (c.t, i) for i, c in enumerate(chain))]))
+        out = {"nodes": paths, "steps_bound": 2, "assertions": sum(len(a) for _, a in queries), "violation_disjuncts": len(queries), "queries": len(queries),
+               "paths": paths, "feasible_paths": paths, "z3_s": 0.0, "assumptions": ["logging is disabled", "stub: with_new_l0_run / SealedMemtables::remove are opaque constructors (their own behaviour: O2.1 / not decided)"],
+               "solvers": "cvc5 1.0 --solve-bv-as-int=sum (deciding) ; z3 5.1.0 (cross-check)"}
+        if queries and not bad:
+            r1, dt, raw = symex.solve_batch(decls, queries, "cvc5int", timeout)
+            r2, dt2, raw2 = symex.solve_batch(decls, queries, "z3new", timeout)
+            out.update(z3_s=round(dt, 2), cvc5_s=round(dt2, 2))
+            if r1 is None or r2 is None or any(r1[t] != r2[t] for t in r1):
+                out.update(verdict="inconclusive", reason="solver: %s" % str(raw)[:200], z3="error")
+                return out
+            for t, v in r1.items():
+                if v == "sat":
+                    bad.append("the sealed memtables removed are not exactly the flushed ids (%s)" % t)
+        out["z3"] = out["cvc5"] = "sat" if bad else "unsat"
+        if bad:
+            out.update(verdict="refuted", reason=bad[0], path=["  " + x for x in bad[:4]])
+        else:
+            out.update(verdict="proved", reason="")
+        return out
+
+    x = XCheck("O4.5 register_tables: one version step adds the flushed tables / blob files and removes exactly the flushed sealed memtables", cf, runner)
+    x.requires = [("", "", "new version = current.with_new_l0_run(tables, blob_files, frag_map.filter(non-empty)); sealed memtables = old minus exactly the given ids; active memtable untouched")]
+    x.shapes = "0, 1, 2 flushed memtable ids x fragmentation diff absent / empty / non-empty"
+    return [x]
